@@ -13,6 +13,7 @@ use std::sync::Arc;
 use std::time::Duration;
 
 const GRID_MS: u64 = 5;
+const FORCE: usize = 1 << 20;
 const TIMEOUT_MS: u64 = 1003;
 
 // ------------------------------------------------------------------------------------------------
@@ -768,6 +769,17 @@ impl Runner {
     // ---- monitors' bookkeeping ----------------------------------------------------------------
 
     fn observe_out(&mut self, o: &HandlerOut) {
+        // C01: a node is reported as established only under its own identity: the session at
+        // this socket was made with the peer that owns it (who proved that identity), so the
+        // reported record must be that peer's
+        if let HandlerOut::Established(enr, socket, _) = o {
+            if let Some(p) = self.w.peers.iter().find(|p| p.addr == *socket) {
+                if p.id != enr.node_id() {
+                    let msg = "a session was reported as established with the record of a node that did not take part in the handshake".to_string();
+                    self.w.fail("C01", msg);
+                }
+            }
+        }
         match o {
             HandlerOut::WhoAreYou(w) => {
                 if let Some(pi) = self.w.peers.iter().position(|p| p.id == w.0.node_id) {
@@ -1279,7 +1291,8 @@ impl Runner {
         if cands.is_empty() {
             return;
         }
-        let qi = cands[req % cands.len()];
+        // req >= FORCE selects the request with index req - FORCE directly
+        let qi = if req >= FORCE && cands.contains(&(req - FORCE)) { req - FORCE } else { cands[req % cands.len()] };
         let pi = self.w.reqs[qi].peer;
         if self.w.peers[pi].keys.is_empty() {
             return;
@@ -1297,7 +1310,7 @@ impl Runner {
         let id = RequestId(rid_bytes);
         let is_findnode = matches!(self.w.reqs[qi].body, RequestBody::FindNode { .. });
         // answers to the handler's own ENR request: mostly the peer's record or another node's
-        let style = if !self.w.reqs[qi].external { *rng.pick(&[0u8, 0, 1, 2, 3, 4, 4, 4, 5]) } else { style };
+        let style = if !self.w.reqs[qi].external { *rng.pick(&[0u8, 0, 1, 2, 3, 4, 4, 4, 4, 5]) } else { style };
         let body = match (is_findnode, style % 6) {
             (true, 0) => ResponseBody::Nodes { total: 1, nodes: vec![self.w.peers[pi].enrs[2].clone()] },
             (true, 1) => ResponseBody::Nodes { total: 3, nodes: vec![self.w.peers[pi].enrs[2].clone()] },
@@ -1306,7 +1319,7 @@ impl Runner {
             (true, 4) => {
                 // the record of another node: with its address, or without any address (so that only the id check can reject it)
                 let other = (pi + 1) % self.w.peers.len();
-                let rec = if rng.chance(1, 2) { self.w.peers[other].enrs[0].clone() } else { mk_enr(&self.w.peers[other].key, 6, None) };
+                let rec = if rng.chance(1, 3) { self.w.peers[other].enrs[0].clone() } else { mk_enr(&self.w.peers[other].key, 6, None) };
                 ResponseBody::Nodes { total: 1, nodes: vec![rec] }
             }
             (_, 5) => ResponseBody::Talk { response: rng.bytes(4) },
@@ -1342,7 +1355,7 @@ impl Runner {
         if cands.is_empty() {
             return;
         }
-        let qi = cands[req % cands.len()];
+        let qi = if req >= FORCE && cands.contains(&(req - FORCE)) { req - FORCE } else { cands[req % cands.len()] };
         let pi = self.w.reqs[qi].peer;
         let nonce = self.w.reqs[qi].nonce;
         let mut idn = [0u8; 16];
@@ -1354,7 +1367,7 @@ impl Runner {
         }
         let bytes = wire_encode(&p, self.w.pid, &self.w.local_id);
         let right = self.w.peers[pi].addr;
-        let src = match rng.below(12) {
+        let src = match if req >= FORCE { 11 } else { rng.below(12) } {
             0 => self.w.peers[(pi + 1) % self.w.peers.len()].addr,
             // the same IP address, another port
             1 | 2 => SocketAddr::new(right.ip(), right.port() + 1 + rng.below(3) as u16),
@@ -1505,6 +1518,21 @@ async fn run_case(seed: u64, idx: u64, focus: &str, thorough: bool, fixes: &str)
     let mut r = Runner::new(&mut rng, npeers, retries, capacity).await;
     let nmoves = if thorough { rng.range(30, 90) } else { rng.range(15, 45) };
     let mut moves = vec![];
+    // scripted opening: dial a peer whose record is unknown; the peer challenges, we answer with a
+    // handshake and ask for its record; the peer answers that request with its own or another record
+    let p_script = match focus { "c01" => 3, "c12" => 3, _ => 8 };
+    if rng.chance(1, p_script) {
+        let p = rng.below(npeers as u64) as usize;
+        r.app_request(&mut rng, p, false, 0).await;
+        let q0 = r.w.reqs.len() - 1;
+        moves.push(format!("scripted: request without record to peer {}", p));
+        r.net_whoareyou(&mut rng, FORCE + q0).await;
+        moves.push("scripted: the peer challenges that request".into());
+        if let Some(qi) = (0..r.w.reqs.len()).rev().find(|i| !r.w.reqs[*i].external && r.w.reqs[*i].peer == p) {
+            r.net_answer(&mut rng, FORCE + qi, 0).await;
+            moves.push("scripted: the peer answers the internal record request".into());
+        }
+    }
     for _ in 0..nmoves {
         let m = gen_move(&mut rng, npeers, focus);
         moves.push(format!("{:?}", m));
